@@ -170,6 +170,14 @@ CHECKS += [
      "note": _SCHED_NOTE},
 ]
 
+CHECKS += [
+    {"id": "C05", "engine": "evloop", "level": "model_checking",
+     "technique": "stateless exploration of all completion interleavings of context-mixing programs (one or several executions per backend)",
+     "text": "All ordered pairs (thorough: triples) of calls mid(1) under contexts {none, A, B}, sequenced, concurrent or split over executions, "
+     "check_valid full and shallow, under the full interleaving tree; every call must return the value of its own effective context.",
+     "note": _SCHED_NOTE},
+]
+
 _ALL = [f"C{i:02d}" for i in range(1, 39)]
 _claimed = {c["id"] for c in CHECKS}
 _REASONS = {}
